@@ -40,14 +40,14 @@ def _user_exc(name):
 # user classes: round-trip through a registered dict-to-class converter for their qualified name (see _UserExcs)
 USER_EXCS = {"u_timeout": _user_exc("TimeoutError"), "u_naming": _user_exc("NamingError"), "u_key": _user_exc("KeyError"),
              "u_conn": _user_exc("ConnectionClosedError"), "u_app": _user_exc("AppError")}
-# not raised by generated plans: StopIteration (see the note in BatchWorld.ASSUMPTIONS), Pyro5 CommunicationError / SecurityError
+# StopIteration is drawn rarely (known finding, see BatchWorld.ASSUMPTIONS); never raised: Pyro5 CommunicationError / SecurityError
 # (handleRequest treats those specially for a single call: no reply / connection dropped - not a batch matter)
 FAIL_KINDS = {"timeout": TimeoutError, "connreset": ConnectionResetError, "conn": ConnectionError, "brokenpipe": BrokenPipeError,
               "key": KeyError, "lookup": LookupError, "runtime": RuntimeError, "os": OSError, "interrupted": InterruptedError,
               "arith": ArithmeticError, "naming": E.NamingError, "daemon": E.DaemonError, "pyro": E.PyroError,
               "stopiter": StopIteration}
 FAIL_KINDS.update(USER_EXCS)
-GEN_FAIL_KINDS = sorted(k for k in FAIL_KINDS if k != "stopiter")
+GEN_FAIL_KINDS = sorted(k for k in FAIL_KINDS if k != "stopiter")       # "stopiter" is drawn separately (rarely)
 
 
 def qualname(t):
@@ -222,7 +222,9 @@ def _call(rng, huge, slow=False):
     k = rng.choices(["add", "push", "put", "get", "div", "check", "hidden", "_secret", "nosuch", "addstr", "work", "fail"],
                     [4, 3, 3, 1, 2, 2, 0.35, 0.35, 0.25, 0.2, 10 if slow else 0.3, 2.2])[0]
     if k == "fail":
-        return {"m": "fail", "a": [rng.choice(GEN_FAIL_KINDS), rng.randint(0, 99)], "k": {}}
+        # StopIteration rarely: a batch hands it to its consumer as RuntimeError (PEP 479, known finding with a signature of its own)
+        kind = "stopiter" if rng.random() < 0.06 else rng.choice(GEN_FAIL_KINDS)
+        return {"m": "fail", "a": [kind, rng.randint(0, 99)], "k": {}}
     if k == "work":
         return {"m": "work", "a": [rng.choice([0.4, 0.5, 0.6, 0.7])], "k": {}}
     if k == "add":
@@ -315,7 +317,7 @@ class BatchWorld(World):
               "background_interleaved", "compressed", "fragmented", "instance_target", "session_class", "percall_class",
               "peer_client", "reconnected", "session_state_compared", "class_instances_compared", "slow_batch",
               "hangup_after_oneway", "abandoned_slow_oneway", "client_gave_up", "serializer_lines",
-              "exc_builtin", "exc_pyro", "exc_user", "exc_name_collision"]
+              "exc_builtin", "exc_pyro", "exc_user", "exc_name_collision", "stopiteration_in_batch", "consume_for_loop"]
     RULE = ("plan = (target: registered instances / session-mode classes / percall-mode classes; server type, serializer, "
             "compression, MSG_WAITALL, fragmentation, batch mode normal/one-way, 0-8 calls over add/push/put(kwargs)/get/div/check/"
             "hidden/_secret/nosuch with arguments from the lossless core, optional second batch of 0-4 calls on the same BatchProxy; "
@@ -335,7 +337,11 @@ class BatchWorld(World):
                    "connection (same client, same generation); states are read with get() on those same connections",
                    "percall-mode class: a batch runs on one fresh instance, so its identical object is a fresh instance that gets the "
                    "calls one by one (a session-mode reference class whose connection is renewed before every batch)",
-                   "instances the daemon created for a class are compared as a multiset of states, untouched instances ignored"]
+                   "instances the daemon created for a class are compared as a multiset of states, untouched instances ignored",
+                   "a batched call that raises StopIteration reaches the consumer of the result generator as RuntimeError('generator "
+                   "raised StopIteration') (PEP 479): reported under its own signature failure-mismatch/position:StopIteration-as-"
+                   "RuntimeError, only when the reference raised builtins.StopIteration at that very position; prefix, results "
+                   "and state of such a batch are judged as usual"]
     QUICK_RUNS = 4000
     CHUNK = 100
     SHRINK_LISTS = ["calls", "second", "again", "peer.calls", "peer.second"]
@@ -364,7 +370,7 @@ class BatchWorld(World):
                 "p_block": rng.choice([0.0, 0.2, 0.6, 1.0]),
                 # the client releases its proxy right after submitting a one-way batch (fire and forget)
                 "hangup": rng.random() < (0.75 if slow else 0.4), "impatient": None, "ser_lines": False,
-                "commtimeout": rng.choice([0, 0, 0, 90.0])}
+                "commtimeout": rng.choice([0, 0, 0, 90.0]), "consume": rng.choice(["next", "for"])}
         if slow and rng.random() < 0.5:
             plan["mode"] = "oneway"
         if servertype == "thread" and rng.random() < (0.6 if serializer == "msgpack" else 0.25):
@@ -502,7 +508,9 @@ class BatchWorld(World):
                 last = tb.tb_frame.f_code.co_filename
                 tb = tb.tb_next
             # "own": raised by this file's own code (a harness bug if it escapes a call), not somewhere below the Pyro5 API
-            return {"cls": qualname(type(x)), "args": list(getattr(x, "args", ())), "comm": isinstance(x, E.CommunicationError),
+            cause = getattr(x, "__cause__", None)
+            return {"cause": None if cause is None else [qualname(type(cause)), list(getattr(cause, "args", ()))],
+                    "cls": qualname(type(x)), "args": list(getattr(x, "args", ())), "comm": isinstance(x, E.CommunicationError),
                     "text": str(x)[:200], "own": last == __file__}
 
         def client(uris, body):
@@ -581,6 +589,13 @@ class BatchWorld(World):
                 except Exception as x:  # noqa
                     rec["iter_exc"] = describe(x)
                     rec["not_iterable"] = short(r)
+                    continue
+                if plan.get("consume") == "for":
+                    try:
+                        for v in it:
+                            rec["results"].append(v)
+                    except Exception as x:  # noqa - the failure at its position
+                        rec["iter_exc"] = describe(x)
                     continue
                 for _ in range(len(calls) + 3):
                     try:
@@ -780,6 +795,8 @@ class BatchWorld(World):
             ctx.probe("reconnected")
         if plan.get("ser_lines"):
             ctx.probe("serializer_lines")
+        if plan.get("consume") == "for":
+            ctx.probe("consume_for_loop")
         if target != "instance" and plan.get("peer") is not None:
             ctx.probe("peer_client")
         if bg["stamps"] and "a1" in marks and any(marks["a0"] < s < marks["a1"] for s in bg["stamps"]):
@@ -943,7 +960,16 @@ class BatchWorld(World):
                 continue
             ctx.probe("failure_at_" + where)
             ok = got["cls"] == fail["cls"] and (name_fail or same(got["args"], fail["args"]))
-            if not ok:
+            if not ok and where == "position" and fail["cls"] == "builtins.StopIteration" and got["cls"] == "builtins.RuntimeError" \
+                    and got["args"] == ["generator raised StopIteration"] \
+                    and (got.get("cause") is None or (got["cause"][0] == "builtins.StopIteration" and same(got["cause"][1], fail["args"]))):
+                # the call's own StopIteration cannot leave BatchProxy's result generator: PEP 479 turns it into RuntimeError.
+                # Everything else about this batch (prefix, results, state) is judged as usual.
+                ctx.probe("stopiteration_in_batch")
+                ctx.violate("failure-mismatch", "position:StopIteration-as-RuntimeError",
+                            "%s: call %d (%s) fails sequentially with %s; the batch raised %s%r at its position (cause: %r)"
+                            % (tag, k, fail["m"], want, got["cls"], got["args"], got.get("cause")))
+            elif not ok:
                 ctx.violate("failure-mismatch", where, "%s: call %d (%s) fails sequentially with %s; the batch raised %s%r at %s"
                             % (tag, k, fail["m"], want, got["cls"], got["args"], where))
 
